@@ -20,7 +20,6 @@ import (
 	"github.com/grafana/cog/internal/languages"
 	"github.com/grafana/cog/internal/veneers/rewrite"
 	cogyaml "github.com/grafana/cog/internal/yaml"
-	"gopkg.in/yaml.v3"
 )
 
 type ParametersInterpolator func(input string) string
@@ -49,9 +48,6 @@ func PipelineFromFile(file string, opts ...PipelineOption) (*Pipeline, error) {
 	}
 	defer func() { _ = fileHandle.Close() }()
 
-	decoder := yaml.NewDecoder(fileHandle)
-	decoder.KnownFields(true)
-
 	pipeline, err := NewPipeline()
 	if err != nil {
 		return nil, err
@@ -60,7 +56,7 @@ func PipelineFromFile(file string, opts ...PipelineOption) (*Pipeline, error) {
 		"__config_dir":  filepath.Dir(file),
 		"__current_dir": currentDir,
 	}
-	if err := decoder.Decode(pipeline); err != nil {
+	if err := cogyaml.DecodeStrict(fileHandle, pipeline); err != nil {
 		return nil, err
 	}
 
